@@ -9,6 +9,7 @@ pub mod conf;
 pub mod fam;
 pub mod gens;
 pub mod hist;
+pub mod huge;
 pub mod large;
 pub mod mem;
 pub mod misc;
